@@ -17,6 +17,8 @@ import (
 	"encoding/json"
 	"flag"
 	"fmt"
+	"net"
+	"net/http"
 	"os"
 	"path/filepath"
 	"strings"
@@ -120,7 +122,76 @@ func slowBody(done chan<- struct{}) {
 	os.RemoveAll(dir)
 }
 
+// authorityVsHost: a tunnel is opened to origin A (CONNECT A) but the request inside names origin B in its Host field.
+// The request is B's: it is sent to B with Host B, answered by B, and what is stored is B's resource — a later ordinary
+// client of B gets B's content, one of A gets A's.
+func authorityVsHost() {
+	dir := filepath.Join(*flagOut, "envavh")
+	env, err := e2elib.Start(e2elib.Options{Backend: "memory", Dir: dir, TLS: true, PlainUpstream: true})
+	if err != nil {
+		panic(err)
+	}
+	env.Origin.SetHandler(func(req e2elib.OriginRequest, k int) e2elib.Answer { // origin A
+		return e2elib.NewAnswer(200, []byte("origin=A;host="+req.Host+";target="+req.Target), "Cache-Control: max-age=600", "X-Origin: A")
+	})
+	lnB, err := net.Listen("tcp", "127.0.0.1:0")
+	if err != nil {
+		panic(err)
+	}
+	var sawB []string
+	var muB sync.Mutex
+	srvB := &http.Server{Handler: http.HandlerFunc(func(w http.ResponseWriter, rq *http.Request) {
+		muB.Lock()
+		sawB = append(sawB, rq.Host)
+		muB.Unlock()
+		w.Header().Set("Cache-Control", "max-age=600")
+		w.Header().Set("X-Origin", "B")
+		fmt.Fprintf(w, "origin=B;host=%s;target=%s", rq.Host, rq.URL.RequestURI())
+	})}
+	go srvB.Serve(lnB)
+	defer srvB.Close()
+	addrA, addrB := env.Origin.Addr, lnB.Addr().String()
+	get := func(connectTo, host, path string) (*e2elib.Response, error) {
+		c, _, err := env.DialTunnel(connectTo, "127.0.0.1", 8*time.Second)
+		if err != nil {
+			return nil, err
+		}
+		defer c.Close()
+		c.Send([]byte("GET "+path+" HTTP/1.1\r\nHost: "+host+"\r\n\r\n"), 5*time.Second)
+		return c.Read("GET", 6*time.Second)
+	}
+	for i := 0; i < 3; i++ {
+		path := fmt.Sprintf("/avh%d", i)
+		total++
+		dist["tunnel-authority-vs-inner-host"]++
+		det := map[string]any{"tunnel_opened_to": "origin A", "inner_host": "origin B", "path": path}
+		env.Origin.ResetLog()
+		r1, err := get(addrA, addrB, path)
+		if err != nil {
+			fail("tunnel-authority-vs-inner-host", det, "no response: "+err.Error())
+			continue
+		}
+		want := "origin=B;host=" + addrB + ";target=" + path
+		if string(r1.Body) != want {
+			det["got"], det["origin_a_received"] = trunc(string(r1.Body)), len(env.Origin.Log())
+			fail("tunnel-authority-vs-inner-host", det, "a tunnelled request naming origin B in its Host field was not relayed to B with that Host")
+			continue
+		}
+		r2, err2 := get(addrB, addrB, path) // an ordinary client of B
+		r3, err3 := get(addrA, addrA, path) // an ordinary client of A
+		if err2 != nil || string(r2.Body) != want {
+			fail("tunnel-authority-vs-inner-host", det, "an ordinary client of origin B did not get B's content afterwards")
+		}
+		if err3 != nil || !strings.HasPrefix(string(r3.Body), "origin=A;host="+addrA+";") {
+			fail("tunnel-authority-vs-inner-host", det, "an ordinary client of origin A did not get A's content afterwards")
+		}
+	}
+	env.Close()
+	os.RemoveAll(dir)
+}
+
 func runC08x(r *emit.Rand) {
+	authorityVsHost()
 	n := 40
 	if *flagTier == "thorough" {
 		n = 400
@@ -390,6 +461,44 @@ func runC10x(r *emit.Rand) {
 		}
 		c.Close()
 	}
+	// however many requests a tunnel carries: 130 exchanges on one kept-alive tunnel, the last ones a POST and a GET
+	{
+		c, _, err := env.DialTunnel(env.Origin.Addr, "127.0.0.1", 8*time.Second)
+		if err != nil {
+			panic(err)
+		}
+		total++
+		dist["many-requests-one-tunnel"]++
+		for k := 1; k <= 130; k++ {
+			p := fmt.Sprintf("/many/a%d", k%7)
+			m := "GET"
+			var bodyBytes []byte
+			if k%50 == 1 || k == 130 {
+				m, bodyBytes = "POST", []byte("payload")
+			}
+			c.Send(env.TunnelRequest(m, p, nil, bodyBytes), 5*time.Second)
+			rr, err := c.Read(m, 5*time.Second)
+			det := map[string]any{"exchange_no": k, "request": m + " " + p}
+			if err != nil {
+				fail("many-requests-one-tunnel", det, fmt.Sprintf("exchange %d on a kept-alive tunnel got no answer: %v", k, err))
+				break
+			}
+			if !strings.HasPrefix(string(rr.Body), "target="+p+";") {
+				det["status"] = rr.Status
+				fail("many-requests-one-tunnel", det, fmt.Sprintf("exchange %d on a kept-alive tunnel did not get its own answer", k))
+				break
+			}
+			if rr.Close && k < 130 {
+				// an announced close is legal; then the client opens a new tunnel
+				c.Close()
+				c, _, err = env.DialTunnel(env.Origin.Addr, "127.0.0.1", 8*time.Second)
+				if err != nil {
+					panic(err)
+				}
+			}
+		}
+		c.Close()
+	}
 	// a request WITH A BODY that is answered from the store (nothing is sent upstream, so nobody else reads the body): the
 	// body is payload of that exchange — the next request on the tunnel gets its own answer, the origin sees nothing new
 	for i, chunkedBody := range []bool{false, true} {
@@ -651,6 +760,54 @@ func runC04x(r *emit.Rand) {
 				env.Close()
 				os.RemoveAll(dir)
 			}
+		}
+	}
+	// a POST answered by a redirect to a storable GET target (the upstream client follows it): whatever that leaves in
+	// the store, the NEXT POST of the same URL and a GET of it must reach the origin again
+	for _, backend := range []string{"memory", "file"} {
+		for _, code := range []int{301, 302, 303} {
+			n++
+			dir := filepath.Join(*flagOut, fmt.Sprintf("env4r-%d", n))
+			env, err := e2elib.Start(e2elib.Options{Backend: backend, Dir: dir})
+			if err != nil {
+				panic(err)
+			}
+			env.Origin.SetHandler(func(req e2elib.OriginRequest, k int) e2elib.Answer {
+				if strings.HasPrefix(req.Target, "/order") {
+					if req.Method == "POST" {
+						return e2elib.NewAnswer(code, nil, "Location: /thanks", "Content-Length: 0")
+					}
+					return answer("order-form", 200, "Cache-Control: max-age=600")
+				}
+				return answer("thanks", 200, "Cache-Control: max-age=600")
+			})
+			post := func() (*e2elib.Response, error) {
+				return env.DoPlain(env.PlainRequest("POST", "/order", []string{"Content-Type: text/plain"}, []byte("item=1")), "POST", 6*time.Second)
+			}
+			count := func(method, prefix string) int {
+				c := 0
+				for _, lr := range env.Origin.Log() {
+					if lr.Method == method && strings.HasPrefix(lr.Target, prefix) {
+						c++
+					}
+				}
+				return c
+			}
+			post()
+			post()
+			total++
+			dist["post-redirect-then-again/"+backend]++
+			det := map[string]any{"backend": backend, "redirect_status": code, "origin_saw_posts": count("POST", "/order")}
+			if count("POST", "/order") < 2 {
+				fail("post-redirect-then-again", det, "the second POST of a URL whose first POST was redirected to a storable GET target never reached the origin (answered from the store)")
+			}
+			resp, err := env.DoPlain(env.PlainRequest("GET", "/order", nil, nil), "GET", 6*time.Second)
+			if err == nil && count("GET", "/order") == 0 {
+				det["get_x_cache"], det["get_body"] = resp.Header.Get("X-Cache"), bodyID(resp.Body)
+				fail("post-redirect-then-again", det, "a GET of the URL was answered from what a redirected POST had left in the store, without origin contact")
+			}
+			env.Close()
+			os.RemoveAll(dir)
 		}
 	}
 }
@@ -956,8 +1113,81 @@ func otherFilesystem() {
 	env.Close()
 }
 
+// starters: the request that STARTS a shared fetch is a HEAD, or a GET carrying Cache-Control: no-store; the plain
+// identical GETs that arrive while it is in flight still cause one origin GET between them and the answer is stored.
+func starters() {
+	for _, backend := range []string{"memory", "file"} {
+		for _, kind := range []string{"HEAD", "GET no-store"} {
+			dir := filepath.Join(*flagOut, "envst-"+backend+"-"+strings.ReplaceAll(kind, " ", "-"))
+			env, err := e2elib.Start(e2elib.Options{Backend: backend, Dir: dir})
+			if err != nil {
+				panic(err)
+			}
+			body := []byte("T=/starter;" + strings.Repeat("s", 1500))
+			env.Origin.SetHandler(func(req e2elib.OriginRequest, k int) e2elib.Answer {
+				time.Sleep(250 * time.Millisecond)
+				return e2elib.NewAnswer(200, body, "Cache-Control: max-age=600")
+			})
+			env.Origin.ResetLog()
+			var wg sync.WaitGroup
+			wg.Add(1)
+			go func() {
+				defer wg.Done()
+				if kind == "HEAD" {
+					env.DoPlain(env.PlainRequest("HEAD", "/starter", nil, nil), "HEAD", 8*time.Second)
+				} else {
+					env.DoPlain(env.PlainRequest("GET", "/starter", []string{"Cache-Control: no-store"}, nil), "GET", 8*time.Second)
+				}
+			}()
+			time.Sleep(60 * time.Millisecond)
+			bad := 0
+			var mu sync.Mutex
+			for i := 0; i < 5; i++ {
+				wg.Add(1)
+				go func() {
+					defer wg.Done()
+					resp, err := env.DoPlain(env.PlainRequest("GET", "/starter", nil, nil), "GET", 8*time.Second)
+					if err != nil || resp.Status != 200 || string(resp.Body) != string(body) {
+						mu.Lock()
+						bad++
+						mu.Unlock()
+					}
+				}()
+			}
+			wg.Wait()
+			gets := 0
+			for _, lr := range env.Origin.Log() {
+				if lr.Method == "GET" {
+					gets++
+				}
+			}
+			resp, err := env.DoPlain(env.PlainRequest("GET", "/starter", nil, nil), "GET", 8*time.Second)
+			total++
+			dist["flight-started-by/"+kind]++
+			det := map[string]any{"backend": backend, "first_request": kind, "plain_gets_joining": 5, "origin_gets": gets}
+			limit := 1
+			if kind == "HEAD" {
+				limit = 1 // the HEAD itself is not a GET at the origin
+			} else {
+				limit = 2 // the starter's own fetch may be separate from the shared one
+			}
+			switch {
+			case bad > 0:
+				fail("flight-started-by", det, fmt.Sprintf("%d of 5 plain clients did not get the complete answer", bad))
+			case gets > limit:
+				fail("flight-started-by", det, fmt.Sprintf("5 simultaneous identical plain GETs arriving while a %s for the URL was in flight caused %d origin GETs", kind, gets))
+			case err != nil || resp.Header.Get("X-Cache") != "HIT":
+				fail("flight-started-by", det, "the answer was not stored: the next plain GET is no hit")
+			}
+			env.Close()
+			os.RemoveAll(dir)
+		}
+	}
+}
+
 func runC05x(r *emit.Rand) {
 	otherFilesystem()
+	starters()
 }
 
 func runC09x(r *emit.Rand) {
@@ -1039,7 +1269,7 @@ func main() {
 		rule = "the proxy stores version 1, the origin moves to version 2 (honouring conditionals), a client sends a Range request carrying If-None-Match / If-Modified-Since of version 2 (entry fresh or stale): no client conditional value reaches the origin, and version 1 is not served as a fresh hit afterwards; x backends x plain/CONNECT"
 	case "C05x":
 		runC05x(r)
-		rule = "file cache whose directory is on another filesystem than the system temp directory (/dev/shm against os.TempDir(); skipped when there is no second writable filesystem): 6 simultaneous identical GETs cause one origin fetch, every client gets the complete answer and the next request is a hit"
+		rule = "file cache whose directory is on another filesystem than the system temp directory (/dev/shm against os.TempDir(); skipped when there is no second writable filesystem): 6 simultaneous identical GETs cause one origin fetch, every client gets the complete answer and the next request is a hit; plain GETs joining while a HEAD, or a GET carrying Cache-Control: no-store, of the same URL is in flight still share one origin GET and the answer is stored"
 	case "C09x":
 		runC09x(r)
 		rule = "file backend at its 1 kB limit whose stored files cannot be removed (turned into non-empty directories), shards 1/2/32: 12 further requests to a healthy origin must each be answered with the origin's 200 within 4 s; the client whose fetch is in flight hangs up (cold and stale key); the cache directory removed / replaced by a dangling link / by a regular file; memory budget 0 % at start and set at run time"
